@@ -306,18 +306,32 @@ def structNode (cfg : Cfg) (fs : FieldFns) (deny : Bool) (n : ENode) : Option Va
   | .scalar .. => if isNullScalar n then structFrom cfg fs deny [] else none
   | _ => none
 
-/-- a tuple-shaped node -/
-def tupleNode (fs : List NodeFn) (n : ENode) : Option Val :=
+/-- a tuple-shaped node: a sequence with exactly one item per component; a null-like scalar for the empty
+tuple; or a `!!binary` scalar whose payload has exactly one byte per component, every component being an
+integer (or untyped) position (`acc` = "this component accepts a byte") -/
+def tupleNode (fs : List NodeFn) (acc : List Bool) (n : ENode) : Option Val :=
   match n with
   | .seq _ _ _ _ _ items => (tupleFrom fs items).map .seq
-  | .scalar .. => if isNullScalar n && fs.isEmpty then some (.seq []) else none
+  | .scalar v tag _ _ _ _ =>
+    if isNullScalar n then (if fs.isEmpty then some (.seq []) else none)
+    else if tag == tagBinary then
+      match Base64.decode (utf8Bytes v) with
+      | none => none
+      | some bs =>
+        if bs.length == acc.length && acc.all id then some (.seq (bs.map fun b => .int (Int.ofNat b))) else none
+    else none
   | _ => none
+
+/-- positions that accept a byte of a `!!binary` payload -/
+def acceptsByte : Ty → Bool
+  | .int _ _ | .any => true
+  | _ => false
 
 /-- payload interpreters of one variant -/
 inductive VarFn where
   | unit
   | newtype (absent : Option Val) (f : NodeFn)
-  | tuple (fs : List NodeFn)
+  | tuple (fs : List NodeFn) (acc : List Bool)
   | struct (fs : FieldFns)
 
 /-- payload of the selected variant; `payload = none` is the scalar form `Variant` (no payload node);
@@ -331,8 +345,8 @@ def variantFrom (cfg : Cfg) : List (String × VarFn) → List Char → Option EN
     | .unit, some p => if tagged || isNullishNode p then some (.variant n .unit) else none
     | .newtype _ f, some p => (f p).map (.variant n)
     | .newtype absent _, none => absent.map (.variant n)
-    | .tuple fs, some p => (tupleNode fs p).map (.variant n)
-    | .tuple _, none => none
+    | .tuple fs acc, some p => (tupleNode fs acc p).map (.variant n)
+    | .tuple _ _, none => none
     | .struct fs, some p => (structNode cfg fs false p).map (.variant n)
     | .struct _, none => none
 
@@ -414,10 +428,12 @@ def interp (cfg : Cfg) : Ty → NodeFn
       else if tag == tagBinary then
         match t with
         | .int _ _ | .any => (Base64.decode (utf8Bytes v)).map (fun bs => .seq (bs.map fun b => .int (Int.ofNat b)))
-        | _ => none
+        | _ =>
+          -- an EMPTY byte string is the empty sequence of any element type; bytes fit only integer elements
+          (Base64.decode (utf8Bytes v)).bind (fun bs => if bs.isEmpty then some (.seq []) else none)
       else none
     | _ => none
-  | .tuple ts => tupleNode (interpFns cfg ts)
+  | .tuple ts => tupleNode (interpFns cfg ts) (ts.map acceptsByte)
   | .map kt vt => fun n => match n with
     | .map _ _ _ entries =>
       match effEntries cfg.dup entries with
@@ -447,7 +463,7 @@ def variantFns (cfg : Cfg) : List (String × VTy) → List (String × VarFn)
     (n, match vt with
         | .unit => VarFn.unit
         | .newtype t => VarFn.newtype (interpAbsent t) (interp cfg t)
-        | .tuple ts => VarFn.tuple (interpFns cfg ts)
+        | .tuple ts => VarFn.tuple (interpFns cfg ts) (ts.map acceptsByte)
         | .struct fs => VarFn.struct (fieldFns cfg fs)) :: variantFns cfg rest
 end
 
